@@ -767,6 +767,9 @@ func genElem(r *vh.Rng, st *xstats, env []binding, depth, maxDepth int, twoPrefi
 	// content
 	if depth < maxDepth {
 		nk := pickOf(r, 0, 1, 2, 3, 5)
+		if depth == 0 && nk == 0 {
+			nk = 2
+		}
 		lastText := false
 		hasElem, hasText := false, false
 		for i := 0; i < nk; i++ {
@@ -822,7 +825,7 @@ func (n *xn) serialise(r *vh.Rng, sb *strings.Builder) {
 
 func genXMLCase(r *vh.Rng, sum *vh.Summary, cw *vh.CaseWriter) {
 	st := &xstats{}
-	two := r.Chance(0.08)
+	two := r.Chance(0.15)
 	twoFlag := two
 	var items []*xn
 	var sb strings.Builder
@@ -838,7 +841,7 @@ func genXMLCase(r *vh.Rng, sum *vh.Summary, cw *vh.CaseWriter) {
 	if r.Chance(0.1) {
 		items = append(items, &xn{K: xSkip, raw: "<!DOCTYPE r>"}, &xn{K: xText, Text: "\n", raw: "\n"})
 	}
-	items = append(items, genElem(r, st, nil, 0, pickOf(r, 0, 1, 2, 3, 4), &twoFlag))
+	items = append(items, genElem(r, st, nil, 0, pickOf(r, 0, 1, 1, 2, 2, 3, 4), &twoFlag))
 	if r.Chance(0.3) {
 		items = append(items, &xn{K: xText, Text: "\n", raw: "\n"})
 		if r.Chance(0.3) {
